@@ -2,6 +2,7 @@
 sequences along every feasible acyclic path of a function (each CFG edge at most once per path, so a
 loop body appears once, delimited by ("again",) markers), with constants evaluated and holes carrying
 width, byte order and the provenance of the value.  Paths are pruned with the interpreter's dead edges."""
+import re
 from .query import *
 from .absint import *
 from .interp import Interp, stable
@@ -175,11 +176,42 @@ class Extractor:
             toks = toks + [("probe", self.probe3(self.outer.it, S, toks))]
         return toks
 
-    def _enter(self, fr, bi, toks, used, exiting, res, S):
+    _FWD = re.compile(r"^core::cmp::impls::<impl core::cmp::(PartialEq|PartialOrd|Ord)(?:<&B>)? for &A>::(eq|partial_cmp|cmp)$")
+
+    def _forwarded(self, fr, t):
+        """the local trait implementation a by-reference forwarding impl of std (&A == &B, (&A).partial_cmp(&B)) ends up calling"""
+        if not self.inline or t.get("t") is None or fr.depth >= self.inline_depth:
+            return None
+        c = t["callee"]
+        m = self._FWD.match(norm_name(c.get("pretty")) or "")
+        g = c.get("generics") or []
+        if not m or len(g) < 1:
+            return None
+        a = g[0].lstrip("&")
+        bty = (g[1] if len(g) > 1 else g[0]).lstrip("&")
+        for cb in self.prog.bodies.values():
+            if cb.kind != "assoc" or not cb.impl or cb.name != m.group(2) or is_derived(cb) or cb.loops:
+                continue
+            if not (cb.impl.get("trait") or "").endswith("::" + m.group(1)) or cb.impl.get("self_ty") != a:
+                continue
+            tr = cb.impl.get("trait_ref") or ""
+            arg = re.search(r"::%s<(.*)>>$" % m.group(1), tr)
+            rhs = arg.group(1) if arg else a
+            if rhs == bty:
+                f = fr
+                while f is not None:
+                    if f.body.key == cb.key:
+                        return None
+                    f = f.ret[0] if f.ret else None
+                return cb
+        return None
+
+    def _enter(self, fr, bi, toks, used, exiting, res, S, cb=None):
         """continue the path inside the callee of block bi's call: parameters are bound to the argument values, memory is shared"""
         body, it = fr.body, fr.it
         t = body.blocks[bi]["term"]
-        cb = self.prog.bodies[callee_path(t)]
+        fwd = cb is not None
+        cb = cb or self.prog.bodies[callee_path(t)]
         cit = Interp(self.ctx, cb, None)
         cit.cond = self.it_cond
         cit.site_tag = (fr.it.site_tag, body.key, bi) if getattr(fr.it, "site_tag", None) is not None else (body.key, bi)
@@ -187,6 +219,9 @@ class Extractor:
         it.cur = (bi, len(body.blocks[bi]["stmts"]))
         it.counter = 0
         args = [it.eval_op(S, a) for a in t["args"]]
+        if fwd:
+            # the forwarding impl passes *self and *other on
+            args = [it.deref_value(S, a, 1, it.op_type(o)) for a, o in zip(args, t["args"])]
         S2 = S.copy()
         for i, a in enumerate(args):
             S2.write((cit.L(i + 1), ()), a)
@@ -303,6 +338,13 @@ class Extractor:
             self.body, self.it = fr.body, fr.it
             del self.order[mark:]
             return
+        if k == "call" and self.inline:
+            fcb = self._forwarded(fr, t)
+            if fcb is not None:
+                self._enter(fr, bi, toks, used, exiting, res, S, cb=fcb)
+                self.body, self.it = fr.body, fr.it
+                del self.order[mark:]
+                return
         dec = it.eval_op(S, t["discr"]) if k == "switch" else None
         it.cur = (bi, len(blk["stmts"]))
         it.counter = 0
